@@ -197,7 +197,7 @@ def points(lo, hi):
     return [[a, a] for a in range(lo, hi + 1)]
 
 
-def small_scope(name, level, point=False, allow_zero_cap=False):
+def small_scope(name, level, point=False, allow_zero_cap=True):
     """
     Enumerate every (params, box) of a small scope for one type.  level 1 = quick, 2 = thorough.
     With point=True only fully instantiated boxes (wider value window, C06).
@@ -270,8 +270,6 @@ def small_scope(name, level, point=False, allow_zero_cap=False):
                         ubs = [l + d for l, d in zip(lbs, dus)]
                         if not allow_zero_cap and any(u == 0 for u in ubs):
                             continue
-                        if allow_zero_cap and not any(u == 0 for u in ubs):
-                            continue
                         caps.append((lbs, ubs))
                 for lbs, ubs in caps:
                     for b in product(iv(0, m - 1), repeat=n):
@@ -308,7 +306,7 @@ def small_scope(name, level, point=False, allow_zero_cap=False):
                     yield {"type": name, "params": [], "box": [list(x) for x in b]}
 
 
-def strategy(prop, tier, allow_zero_cap=False):
+def strategy(prop, tier, allow_zero_cap=True):
     types = TYPES_FOR[prop]
     if tier == "quick":
         base = gen.box_case(types=types, max_n=4, max_w=3, allow_zero_cap=allow_zero_cap)
